@@ -86,21 +86,26 @@ EcN  == 5        \* five vendored sets of ECDSA pre-parameters; EdDSA signing ne
 (* proto, site, proof message, statement carriers, verifying round, marker of acceptance, largest committee,         *)
 (* session inputs that can be varied between two executable sessions, whether the statement is self-contained       *)
 (* (so that the proof can be presented in ANOTHER session at all)                                                    *)
-S(p, s, pm, ver, mk, maxn, vary) == [proto |-> p, site |-> s, msg |-> pm, ver |-> ver, marker |-> mk, maxN |-> maxn, vary |-> vary]
+S(p, s, pm, ver, mk, maxn, vary, of) == [proto |-> p, site |-> s, msg |-> pm, ver |-> ver, marker |-> mk, maxN |-> maxn, vary |-> vary, ctxOf |-> of]
 Sites == {
-  S("eddsa-keygen",    "schnorr", "KGRound2Message2",  3, "result",             BigN, {"keys"}),
-  S("eddsa-signing",   "schnorr", "SignRound2Message", 3, "SignRound3Message",  EcN,  {"keys", "keydata"}),
-  S("ecdsa-keygen",    "modfac",  "KGRound2Message2",  3, "KGRound3Message",    EcN,  {"keys"}),  \* ProofMod and ProofFac under the one ContextI of round 2, presented together
-  S("ecdsa-keygen",    "mod",     "KGRound2Message2",  3, "KGRound3Message",    EcN,  {}),        \* ... each alone (the other switched off: NoProofFac / NoProofMod);
-  S("ecdsa-keygen",    "fac",     "KGRound2Message1",  3, "KGRound3Message",    EcN,  {}),        \*     the ssid is the protocol's: one site per protocol varies it
-  S("ecdsa-signing",   "gamma",   "SignRound4Message", 5, "SignRound5Message",  EcN,  {"keys"}),
-  S("ecdsa-signing",   "av",      "SignRound6Message", 7, "SignRound7Message",  EcN,  {}),        \* statement: the session's R
-  S("ecdsa-resharing", "mod",     "DGRound2Message1",  4, "DGRound4Message2",   EcN,  {}) }
+  S("eddsa-keygen",    "schnorr", "KGRound2Message2",  3, "result",             BigN, {"keys"}, "prover"),
+  S("eddsa-signing",   "schnorr", "SignRound2Message", 3, "SignRound3Message",  EcN,  {"keys", "keydata"}, "prover"),
+  S("ecdsa-keygen",    "modfac",  "KGRound2Message2",  3, "KGRound3Message",    EcN,  {"keys"}, "prover"),  \* ProofMod and ProofFac under the one ContextI of round 2, presented together
+  S("ecdsa-keygen",    "mod",     "KGRound2Message2",  3, "KGRound3Message",    EcN,  {}, "prover"),        \* ... each alone (the other switched off: NoProofFac / NoProofMod);
+  S("ecdsa-keygen",    "fac",     "KGRound2Message1",  3, "KGRound3Message",    EcN,  {}, "prover"),        \*     the ssid is the protocol's: one site per protocol varies it
+  S("ecdsa-signing",   "gamma",   "SignRound4Message", 5, "SignRound5Message",  EcN,  {"keys"}, "prover"),
+  S("ecdsa-signing",   "av",      "SignRound6Message", 7, "SignRound7Message",  EcN,  {}, "prover"),        \* statement: the session's R
+  S("ecdsa-resharing", "mod",     "DGRound2Message1",  4, "DGRound4Message2",   EcN,  {}, "prover"),
+  S("ecdsa-resharing", "fac-to",  "DGRound4Message1",  5, "result",             EcN,  {}, "recipient") }
+(* "fac-to": ecdsa/resharing makes ProofFac under ssid || index of the RECIPIENT (round_4_new_step_2.go) and the        *)
+(* recipient verifies under its OWN index (round_5_new_step_3.go): the context does not name the prover, so the model  *)
+(* ACCEPTS the replay of party i's proof (with i's Paillier modulus) by party j towards the same recipient.  With the  *)
+(* modulus proofs on, j cannot claim i's modulus (site "mod"); the row is executed with SetNoProofMod and RECORDED,     *)
+(* not judged.                                                                                                          *)
 (* not sites: ecdsa-signing ProofBob / ProofBobWC (the statement contains the ciphertext the verifier encrypted afresh *)
 (* for THIS prover, and for the proof with check also the prover's public share W_j: another participant cannot       *)
-(* present them whatever the context); ecdsa-resharing ProofFac (made under the RECIPIENT's index, statement =   *)
-(* the prover's Paillier modulus, which the modulus proof above ties to the prover); dln proofs and Alice's range     *)
-(* proof take no context; eddsa-resharing has no proofs.                                                              *)
+(* present them whatever the context); dln proofs and Alice's range proof take no context; eddsa-resharing has no    *)
+(* proofs.                                                                                                            *)
 
 -----------------------------------------------------------------------------
 (* 3. replay as a state machine *)
@@ -148,10 +153,15 @@ WeakFlips(x, i, y, j) ==       \* the weakened designs under which this replay w
   {e \in WeakEncoders : Accepts(e, "all", x, i, y, j)} \cup {d \in WeakDerivs : Accepts("bigbytes", d, x, i, y, j)}
 Reach(s) == {i \in IdxClasses : i < s.maxN}
 LeastOther(i, j) == Min({k \in 0..2 : k # i /\ k # j})
+Named(s, who, v) == IF s.ctxOf = "prover" THEN who ELSE v      \* the index the context of this site names
 Row(s, kind, i, j, vary, y) ==
-  [kind |-> kind, proto |-> s.proto, site |-> s.site, msg |-> s.msg, ver |-> s.ver, marker |-> s.marker,
-   i |-> i, j |-> j, v |-> LeastOther(i, j), n |-> Max2(3, Max2(i, j) + 1), vary |-> vary,
-   predict |-> Verdict(Accepts("bigbytes", "all", X0, i, y, j)), weak |-> WeakFlips(X0, i, y, j)]
+  LET v  == LeastOther(i, j)
+      a  == Named(s, i, v)
+      b  == Named(s, j, v)
+      ok == Accepts("bigbytes", "all", X0, a, y, b)
+  IN [kind |-> kind, proto |-> s.proto, site |-> s.site, msg |-> s.msg, ver |-> s.ver, marker |-> s.marker,
+      i |-> i, j |-> j, v |-> v, n |-> Max2(3, Max2(i, j) + 1), vary |-> vary, ctxof |-> s.ctxOf,
+      predict |-> Verdict(ok), weak |-> IF ok THEN {} ELSE WeakFlips(X0, a, y, b)]
 IndexRows   == UNION {{Row(s, "index", p[1], p[2], "none", X0) : p \in {q \in Reach(s) \X Reach(s) : q[1] # q[2]}} : s \in Sites}
 (* another session: the party at the SAME index presents the proof it (or its namesake) made elsewhere; the third   *)
 (* party (index 2) is the one whose key / whose key data differ, prover and verifier are 0 and 1                     *)
@@ -165,6 +175,6 @@ Unreached(e) == LeastCommittee(e) > BigN
 ASSUME EmitUnreached == \A e \in WeakEncoders : Unreached(e) => PrintT(<<"UNREACHED", e, LeastCommittee(e)>>)
 (* every weakened design that some committee reaches is told apart by a catalogue row, at every site it can occur at *)
 ASSUME CatalogueTellsApart ==
-  /\ \A s \in Sites : \A e \in WeakEncoders : LeastCommittee(e) <= s.maxN => \E r \in IndexRows : r.proto = s.proto /\ r.site = s.site /\ e \in r.weak /\ r.predict = "reject"
+  /\ \A s \in {t \in Sites : t.ctxOf = "prover"} : \A e \in WeakEncoders : LeastCommittee(e) <= s.maxN => \E r \in IndexRows : r.proto = s.proto /\ r.site = s.site /\ e \in r.weak /\ r.predict = "reject"
   /\ \A s \in Sites : \A f \in s.vary : \E r \in CrossRows : r.proto = s.proto /\ r.site = s.site /\ r.predict = "reject" /\ r.weak # {}
 =============================================================================
